@@ -39,4 +39,6 @@ Section Tables.
         | None => let i := zlen (fa_items st) in match fa_setitem st i a with OK st' => OK (i, st') | Err e => Err e end
         end
     end.
+  Definition fa_to_tuple (st : fromargs T) : res (list T) :=
+    if negb (keys_are_range (fa_items st)) then Err ValueError else OK (map snd (isort_by_key (fa_items st))).
 End Tables.
